@@ -22,6 +22,10 @@ pub fn build_race_world() -> MResult<()> {
         .dir("attacker").dir("attacker/x").dir("attacker/x/c").dir("attacker/x/c/d").file("attacker/x/secret2").dir("attacker/x/b").dir("attacker/x/b/c").dir("attacker/x/b/c/d")
         .file("attacker/x/f").dir("attacker/x/e").file("attacker/x/e/f")
         .link("attacker/l-root", "/").link("attacker/l-up2", "../..").link("attacker/l-secret", "/../secret")
+        // every name the walked paths use also exists directly in the attacker's directory (and its parent), so that a walk
+        // that climbs out of a moved directory *finds* something
+        .link("attacker/lnk", "/etc/passwd").link("attacker/abs", "/etc").dir("attacker/c").dir("attacker/c/d").dir("attacker/b").dir("attacker/b/c").dir("attacker/e").file("attacker/e/f").file("attacker/f").dir("attacker/a").dir("attacker/a/b").dir("attacker/d")
+        .link("lnk", "/etc/shadow").link("abs", "/etc").dir("b").dir("b/c").dir("c").dir("c/d").dir("d")
         .dir("sibling").dir("sibling/a").dir("sibling/a/b").dir("sibling/a/b/c").dir("sibling/a/b/c/d").dir("sibling/e").file("sibling/e/f").file("sibling/secret").file("sibling/f")
         .file("secret").file("target").dir("a").dir("a/b").dir("a/b/c").dir("a/b/c/d").dir("e").file("e/f").file("f");
     outside.build(&parent)?;
@@ -40,7 +44,7 @@ pub fn build_race_world() -> MResult<()> {
 }
 
 pub fn lookup_paths(thorough: bool) -> Vec<&'static str> {
-    let mut v = vec!["a/b/c/d", "a/b/../b/c/../../b/c/d", "a/b/lnk/f", "abs/c/d", "up/up/a/b", "a/b/c/d/../../../../e/f", "a/b/lnk", "abs"];
+    let mut v = vec!["a/b/c/d", "a/b/../b/c/../../b/c/d", "a/b/lnk/f", "abs/c/d", "up/up/a/b", "a/b/c/d/../../../../e/f", "a/b/lnk", "abs", "a/b/c/../lnk", "a/b/c/../../../abs"];
     if thorough { v.extend_from_slice(&["a/b/c/../../../../../../a", "a/b/c/d/nonexist", "e/../a/b/lnk/../a", "/abs/../b/c"]); }
     v
 }
@@ -123,6 +127,12 @@ pub fn lookup_scenarios(thorough: bool) -> Vec<Scenario> {
             for op in ops {
                 v.push(Scenario { name: format!("{}/{}", b, op.brief()), backend: b.into(), op, path: p.into() });
             }
+        }
+        // resolver flag NO_SYMLINKS on the '..'-heavy, link-free paths
+        for p in ["a/b/../b/c/../../b/c/d", "a/b/c/d/../../../../e/f"] {
+            let mut ops = vec![Op::new("resolve").root(ROOT_IN).path(p).rflags(RESOLVE_NO_SYMLINKS)];
+            if thorough { ops.push(Op::new("open_subpath").root(ROOT_IN).path(p).flags(O_RDONLY | O_NONBLOCK).rflags(RESOLVE_NO_SYMLINKS)); ops.push(Op::new("resolve_nofollow").root(ROOT_IN).path(p).rflags(RESOLVE_NO_SYMLINKS)); }
+            for op in ops { v.push(Scenario { name: format!("{}/{}", b, op.brief()), backend: b.into(), op, path: p.into() }); }
         }
     }
     v
